@@ -220,7 +220,7 @@ func c13sScenario(p c13sParams, bound int) vh.SScenario {
 }
 
 func TestVerifC13S(t *testing.T) {
-	r := vres.Open("C13", "S")
+	r := vres.Open("C13", racePart("S"))
 	defer func() {
 		if err := r.Close(); err != nil {
 			t.Fatal(err)
